@@ -73,7 +73,7 @@ func runC03(c *core.Ctx) {
 	c.Doc("C03.readn", "ReadN: nil only when complete, fragments accumulated at the right offset; every call passes the length of the buffer it fills", 10)
 	ruleReadNComplete(c, "C03.readn")
 	ruleReadNCalls(c, newDecoderSet(c), "C03.readn")
-	c.Doc("C03.limits", "size-limit comparisons accept the limit itself (encoder/decoder/reader agree)", 8)
+	c.Doc("C03.limits", "size-limit comparisons accept the limit itself (encoder/decoder/reader agree)", 5)
 	ruleLimitComparisons(c, "C03.limits")
 
 	// a codec that looks at the concrete source (type assertion, wrapping) behaves
